@@ -796,7 +796,7 @@ def includesCmd (args : List String) : String :=
     let st := Includes.parseFiles fs inputs
     let stable := decide (Includes.run fs (fs.n + 5) (Includes.init inputs) = st)
     let users := st.reads.filter (Includes.isUserInput inputs)
-    s!"wf={if fs.wf inputs then 1 else 0} stack={st.stack.length} stable={if stable then 1 else 0} reads={showCsv st.reads} users={showCsv users} errors={",".intercalate (st.errors.map (fun e => s!"{e.1}.{e.2}"))}"
+    s!"wf={if fs.wf inputs then 1 else 0} stack={st.stack.length} stable={if stable then 1 else 0} reads={showCsv st.reads} users={showCsv users} errors={",".intercalate (st.errors.map (fun e => s!"{e.1}.{e.2}"))} bad={",".intercalate ((Includes.badSites fs inputs st.reads).map (fun e => s!"{e.1}.{e.2}"))}"
   | _ => "bad-op"
 
 /-- `taint <fuel> <params|-> <exported|-> <underscore|-> <fact>*` with facts `A:w:rs:phi`, `D:names:rs`,
